@@ -1,5 +1,6 @@
 import MidnightZK.Proofs.C20.Ipa
 import MidnightZK.Proofs.C20.IpaPoly
+import MidnightZK.Proofs.C20.Gadget
 /-!
 # C20 — recursion and aggregation accept exactly the valid inner proofs
 Property theorems (helper lemmas live in `MidnightZK/Proofs/C20`).
@@ -235,5 +236,82 @@ theorem ipa_proof_elements (len : Nat) :
 example : rounds 64 = 6 ∧ rounds 1 = 0 := by decide
 
 end Ipa
+
+/-! ## Part 2: the Fiat–Shamir schedule of the in-circuit verifier -/
+section Gadget
+open MidnightZK.C01
+
+/-- The in-circuit verifier (`VerifierGadget::prepare` = `parse_trace` +
+`verify_algebraic_constraints` + `kzg::multi_prepare`, through the transcript gadget) performs
+exactly the transcript operations of the off-circuit verifier (`plonk::prepare`, model
+`MidnightZK.C01.verifierSchedule`) on one proof: same kinds, same element types, same order, same
+grouping of the opening queries into point sets — for every constraint-system shape the gadget
+supports (single phase, rotations in `{-1,0,1}`), every number of committed instance columns
+and all plain instance lengths, provided the inner circuit declares no challenge. Both verifiers
+therefore derive the same challenges from the same proof bytes. -/
+theorem gadget_schedule_agree (sh : Shape) (nCommitted : Nat) (lens : List Nat)
+    (hs : gadgetSupported sh = true) (hch : sh.challengePhase = []) :
+    gadgetSchedule sh nCommitted lens =
+      verifierSchedule sh { nProofs := 1, nCommitted := nCommitted, lens := [lens] } := by
+  have hphase := single_phase_of_supported sh hs
+  have hinst : verifierInstances { nProofs := 1, nCommitted := nCommitted, lens := [lens] } =
+      gadgetInstances nCommitted lens := by
+    simp [verifierInstances, gadgetInstances, commonPoint, commonScalar]
+  have hadv : verifierAdvice sh { nProofs := 1, nCommitted := nCommitted, lens := [lens] } =
+      gadgetAdvice sh := by
+    simp only [verifierAdvice, gadgetAdvice, phases_single sh hphase, hch, range_one_flatMap,
+      List.flatMap_cons, List.flatMap_nil, List.append_nil, List.zipIdx_nil]
+    have := zipIdx_flatMap_all_zero (fun c => elemG (.adviceCommit 0 c)) sh.advicePhase 0 hphase
+    simp only [List.range_eq_range', readPoint]
+    exact this
+  have hev : verifierEvals sh { nProofs := 1, nCommitted := nCommitted, lens := [lens] } =
+      gadgetEvals sh nCommitted := by
+    simp [verifierEvals, gadgetEvals, readScalar]
+  have hq : verifierQueries sh { nProofs := 1, nCommitted := nCommitted, lens := [lens] } =
+      gadgetQueries sh nCommitted := by
+    simp only [verifierQueries, gadgetQueries, range_one_flatMap]
+    have := flatMap_ite_eq_filterMap (fun q : Nat × Int => decide (q.1 < nCommitted))
+      (fun q => (Com.inst 0 q.1, q.2)) sh.instanceQueries
+    simp only [decide_eq_true_eq] at this
+    rw [this]
+  unfold gadgetSchedule verifierSchedule
+  rw [hinst, hadv, hev, hq]
+  simp [verifierLookupsPermuted, gadgetLookupsPermuted, verifierPermCommit, gadgetPermCommit,
+    verifierLookupsProduct, gadgetLookupsProduct, verifierTrash, gadgetTrash, verifierHPieces,
+    gadgetHPieces, quotientPolyDegree, verifierPermEvals, gadgetPermEvals, verifierLookupEvals,
+    gadgetLookupEvals, verifierTrashEvals, gadgetTrashEvals, verifierMultiOpen, gadgetMultiPrepare,
+    readPoint, readScalar, commonScalar, List.range_succ]
+
+/-- A small supported shape (3 advice columns, one lookup, rotations -1..1). -/
+def exampleShape : Shape :=
+  { advicePhase := [0, 0, 0], challengePhase := [], adviceQueries := [(0, 0), (1, 1), (2, -1)],
+    instanceQueries := [(0, 0), (1, 0)], fixedQueries := [(0, 0)], numLookups := 1, numTrash := 1,
+    permCols := 5, degree := 4, blinding := 5, k := 6 }
+
+/-- Non-vacuity: the hypotheses hold for `exampleShape`, whose schedule has 63 events. -/
+example : gadgetSupported exampleShape = true ∧ exampleShape.challengePhase = [] ∧
+    (gadgetSchedule exampleShape 1 [3]).length = 63 := by decide
+
+/-- Consequence: the in-circuit verifier consumes exactly the bytes of an accepted proof
+(the off-circuit proof length of C01/C03). -/
+theorem gadget_proof_len (sh : Shape) (nCommitted : Nat) (lens : List Nat)
+    (hs : gadgetSupported sh = true) (hch : sh.challengePhase = []) :
+    gadgetProofLen sh nCommitted lens =
+      proofLen sh { nProofs := 1, nCommitted := nCommitted, lens := [lens] } := by
+  unfold gadgetProofLen proofLen
+  rw [gadget_schedule_agree sh nCommitted lens hs hch]
+
+/-- The hypothesis on challenges cannot be dropped: the gadget asserts
+`cs.phases().count() == 1` but never squeezes a user challenge, whereas the off-circuit verifier
+squeezes the challenges of phase 0 right after the advice commitments. For a (legal) constraint
+system with a challenge usable after the first phase and no later-phase column, the two
+schedules differ (the gadget documents `num_challenges` as an assumption without asserting it). -/
+theorem gadget_schedule_needs_no_challenge :
+    gadgetSupported { exampleShape with challengePhase := [0] } = true ∧
+    gadgetSchedule { exampleShape with challengePhase := [0] } 1 [3] ≠
+      verifierSchedule { exampleShape with challengePhase := [0] }
+        { nProofs := 1, nCommitted := 1, lens := [[3]] } := by decide
+
+end Gadget
 
 end MidnightZK.C20
